@@ -268,6 +268,10 @@ func regions(o op, t *table, next *table) []string {
 		if rewritten && inAnyIndex(t, x.name) && (x.col.name != x.name || typeChanged) {
 			out = append(out, fRewriteIdx)
 		}
+		if rewritten && x.col.name != x.name && len(t.pk) == 0 && t.inUnique(x.name) {
+			// the rewrite no longer finds the column of the unique index under its old name
+			out = append(out, fDropUniqCol)
+		}
 		if pkMoves && len(t.idx) > 0 {
 			out = append(out, fStaleIdxTbl)
 		}
